@@ -881,5 +881,593 @@ theorem seqDecorate_not_list (cfg : DecCfg) (seq : Nat) {v : Val} (h : v.isList 
   · exact h
   · cases v <;> simp [Val.isList] at h ⊢
 
+
+/-! ### the fold keeps keys distinct -/
+
+theorem nodup_keys_loadAttrs (cfg : DecCfg) (S : Strconv) (attrs : List Attr) :
+    (keys (loadAttrs cfg S attrs)).Nodup := by
+  unfold loadAttrs
+  have : ∀ (as : List Attr) (na : Entries), (keys na).Nodup →
+      (keys (as.foldl (fun na a =>
+        let key := attrKey cfg S a.name
+        insert key (cast S cfg.cast (escDecIf cfg a.value) key) na) na)).Nodup := by
+    intro as
+    induction as with
+    | nil => intro na h; exact h
+    | cons a as ih => intro na h; exact ih _ (nodup_keys_insert _ _ _ h)
+  exact this attrs [] (by simp [keys])
+
+theorem nodup_keys_onText (cfg : DecCfg) (S : Strconv) (skey : Str) (na : Entries) (n : Option Val)
+    (s : Str) (h : (keys na).Nodup) : (keys (onText cfg S skey na n s).1).Nodup := by
+  unfold onText
+  simp only
+  split
+  · exact h
+  · split
+    · exact nodup_keys_insert _ _ _ h
+    · exact h
+
+theorem nodup_keys_kids' (cfg : DecCfg) (S : Strconv) (skey : Str) : ∀ (ks : List Node)
+    (na : Entries) (n : Option Val) (seq : Nat) (pend : Option Str), (keys na).Nodup →
+    (keys (Fold.kids' cfg S skey (na, n, seq, pend) ks).1).Nodup
+  | [], na, n, seq, pend, h => by simpa [Fold.kids'] using h
+  | .elem sp name attrs ks' :: rest, na, n, seq, pend, h => by
+      simp only [Fold.kids']
+      exact nodup_keys_kids' cfg S skey rest _ _ _ _ (nodup_keys_addChild _ _ _ h)
+  | .text s :: rest, na, n, seq, pend, h => by
+      simp only [Fold.kids']
+      exact nodup_keys_kids' cfg S skey rest _ _ _ _ (nodup_keys_onText _ _ _ _ _ _ h)
+  | .comment _ :: rest, na, n, seq, pend, h => by
+      simp only [Fold.kids']
+      exact nodup_keys_kids' cfg S skey rest _ _ _ _ h
+  | .procinst _ _ :: rest, na, n, seq, pend, h => by
+      simp only [Fold.kids']
+      exact nodup_keys_kids' cfg S skey rest _ _ _ _ h
+  | .directive _ :: rest, na, n, seq, pend, h => by
+      simp only [Fold.kids']
+      exact nodup_keys_kids' cfg S skey rest _ _ _ _ h
+
+/-! ### the specification never yields a list for an element -/
+
+theorem conv_value_not_list (cfg : DecCfg) (S : Strconv) (sp name : Str) (attrs : List Attr)
+    (ks : List Node) : (Conv.value cfg S (.elem sp name attrs ks)).isList = false := by
+  simp only [Conv.value]
+  split
+  · split <;> rfl
+  · split
+    · split
+      · exact scalar_not_list (cast_scalar _ _ _ _)
+      · rfl
+    · rfl
+
+theorem childVals_not_list (cfg : DecCfg) (S : Strconv) : ∀ (ks : List Node) (seq : Nat),
+    ∀ c ∈ Conv.childVals cfg S seq ks, c.2.isList = false
+  | [], seq, c, h => by simp [Conv.childVals] at h
+  | .elem sp name attrs ks' :: rest, seq, c, h => by
+      simp only [Conv.childVals, List.mem_cons] at h
+      rcases h with rfl | h
+      · exact seqDecorate_not_list _ _ (conv_value_not_list ..)
+      · exact childVals_not_list cfg S rest _ c h
+  | .text _ :: rest, seq, c, h => by
+      simp only [Conv.childVals] at h; exact childVals_not_list cfg S rest _ c h
+  | .comment _ :: rest, seq, c, h => by
+      simp only [Conv.childVals] at h; exact childVals_not_list cfg S rest _ c h
+  | .procinst _ _ :: rest, seq, c, h => by
+      simp only [Conv.childVals] at h; exact childVals_not_list cfg S rest _ c h
+  | .directive _ :: rest, seq, c, h => by
+      simp only [Conv.childVals] at h; exact childVals_not_list cfg S rest _ c h
+
+/-- every child key is the element key of some element child -/
+theorem childVals_key (cfg : DecCfg) (S : Strconv) : ∀ (ks : List Node) (seq : Nat),
+    ∀ c ∈ Conv.childVals cfg S seq ks,
+      ∃ sp name attrs ks', Node.elem sp name attrs ks' ∈ ks ∧ c.1 = elemKey cfg S name
+  | [], seq, c, h => by simp [Conv.childVals] at h
+  | .elem sp name attrs ks' :: rest, seq, c, h => by
+      simp only [Conv.childVals, List.mem_cons] at h
+      rcases h with rfl | h
+      · exact ⟨sp, name, attrs, ks', List.mem_cons_self .., rfl⟩
+      · obtain ⟨a, b, c', d, hm, he⟩ := childVals_key cfg S rest _ c h
+        exact ⟨a, b, c', d, List.mem_cons_of_mem _ hm, he⟩
+  | .text _ :: rest, seq, c, h => by
+      simp only [Conv.childVals] at h
+      obtain ⟨a, b, c', d, hm, he⟩ := childVals_key cfg S rest _ c h
+      exact ⟨a, b, c', d, List.mem_cons_of_mem _ hm, he⟩
+  | .comment _ :: rest, seq, c, h => by
+      simp only [Conv.childVals] at h
+      obtain ⟨a, b, c', d, hm, he⟩ := childVals_key cfg S rest _ c h
+      exact ⟨a, b, c', d, List.mem_cons_of_mem _ hm, he⟩
+  | .procinst _ _ :: rest, seq, c, h => by
+      simp only [Conv.childVals] at h
+      obtain ⟨a, b, c', d, hm, he⟩ := childVals_key cfg S rest _ c h
+      exact ⟨a, b, c', d, List.mem_cons_of_mem _ hm, he⟩
+  | .directive _ :: rest, seq, c, h => by
+      simp only [Conv.childVals] at h
+      obtain ⟨a, b, c', d, hm, he⟩ := childVals_key cfg S rest _ c h
+      exact ⟨a, b, c', d, List.mem_cons_of_mem _ hm, he⟩
+
+/-! ### text runs -/
+
+theorem textRuns_length (cfg : DecCfg) : ∀ (ks : List Node) (a b : Bool),
+    (Conv.textRuns cfg a ks).length = (Conv.textRuns cfg b ks).length
+  | [], a, b => by simp [Conv.textRuns]
+  | .elem _ _ _ _ :: rest, a, b => by simp only [Conv.textRuns]
+  | .text s :: rest, a, b => by
+      simp only [Conv.textRuns]
+      split
+      · exact textRuns_length cfg rest a b
+      · simp only [List.length_cons, textRuns_length cfg rest a b]
+  | .comment _ :: rest, a, b => by simp only [Conv.textRuns]; exact textRuns_length cfg rest a b
+  | .procinst _ _ :: rest, a, b => by simp only [Conv.textRuns]; exact textRuns_length cfg rest a b
+  | .directive _ :: rest, a, b => by simp only [Conv.textRuns]; exact textRuns_length cfg rest a b
+
+theorem textRuns_eq_nil (cfg : DecCfg) (ks : List Node) (a b : Bool)
+    (h : (Conv.textRuns cfg a ks).length = 0) : Conv.textRuns cfg b ks = [] := by
+  rw [textRuns_length cfg ks a b] at h
+  exact List.length_eq_zero_iff.1 h
+
+/-! ### no adjacent text nodes -/
+
+theorem noAdjTextKids_tail {k : Node} {rest : List Node} (h : noAdjTextKids (k :: rest) = true) :
+    noAdjTextKids rest = true := by
+  unfold noAdjTextKids at h
+  split at h
+  · rename_i heq; cases heq
+  · cases h
+  · rename_i k' rest' _ heq
+    cases heq
+    simp only [Bool.and_eq_true] at h
+    exact h.2
+
+theorem noAdjTextKids_head {k : Node} {rest : List Node} (h : noAdjTextKids (k :: rest) = true) :
+    noAdjText k = true := by
+  unfold noAdjTextKids at h
+  split at h
+  · rename_i heq; cases heq
+  · cases h
+  · rename_i k' rest' _ heq
+    cases heq
+    simp only [Bool.and_eq_true] at h
+    exact h.1
+
+theorem noAdjTextKids_text {s : Str} {rest : List Node} (h : noAdjTextKids (.text s :: rest) = true) :
+    ∀ s' r', rest ≠ .text s' :: r' := by
+  intro s' r' e
+  subst e
+  simp [noAdjTextKids] at h
+
+
+/-! ### the fold over the children against the declarative placement of the text -/
+
+/-- `pend` is irrelevant: nothing pending, or the next node is not text -/
+def pendOK (pend : Option Str) (ks : List Node) : Prop :=
+  pend = none ∨ ∀ s rest, ks ≠ .text s :: rest
+
+/-- what the conventions prescribe for `(n, na)` given the children entries `F` and the text runs -/
+def expect (cfg : DecCfg) (S : Strconv) (skey : Str) (n : Option Val) (F : Entries)
+    (runs : List Conv.TextRun) : Option Val × Entries :=
+  match runs with
+  | [] => (n, F)
+  | t :: _ =>
+      if t.early then (some (cast S cfg.cast t.value skey), F)
+      else (n, insert cfg.textK (cast S cfg.cast t.value cfg.textK) F)
+
+theorem expect_congr (cfg : DecCfg) (S : Strconv) (skey : Str) (n : Option Val) {F F' : Entries}
+    (h : EqN F F') (runs : List Conv.TextRun) :
+    (expect cfg S skey n F runs).1 = (expect cfg S skey n F' runs).1
+      ∧ EqN (expect cfg S skey n F runs).2 (expect cfg S skey n F' runs).2 := by
+  unfold expect
+  cases runs with
+  | nil => exact ⟨rfl, h⟩
+  | cons t _ =>
+    simp only
+    split
+    · exact ⟨rfl, h⟩
+    · exact ⟨rfl, EqN.insert h _ rfl⟩
+
+theorem kids_claim (cfg : DecCfg) (S : Strconv) (skey : Str) : ∀ (ks : List Node),
+    (∀ sp name attrs ks', Node.elem sp name attrs ks' ∈ ks →
+      Rel (Fold.value cfg S (.elem sp name attrs ks')) (Conv.value cfg S (.elem sp name attrs ks'))) →
+    (∀ sp name attrs ks', Node.elem sp name attrs ks' ∈ ks → elemKey cfg S name ≠ cfg.textK) →
+    noAdjTextKids ks = true →
+    ∀ (na : Entries) (n : Option Val) (seq : Nat) (pend : Option Str), pendOK pend ks →
+    (Conv.textRuns cfg false ks).length ≤ 1 →
+    (Fold.kids' cfg S skey (na, n, seq, pend) ks).2.1
+        = (expect cfg S skey n (addAll na (Conv.childVals cfg S seq ks))
+            (Conv.textRuns cfg (!na.isEmpty || cfg.asMap) ks)).1
+    ∧ EqN (Fold.kids' cfg S skey (na, n, seq, pend) ks).1
+        (expect cfg S skey n (addAll na (Conv.childVals cfg S seq ks))
+            (Conv.textRuns cfg (!na.isEmpty || cfg.asMap) ks)).2
+  | [], _, _, _, na, n, seq, pend, _, _ => by
+      simp only [Fold.kids', Conv.childVals, Conv.textRuns, expect, addAll_nil]
+      exact ⟨trivial, EqN.refl _⟩
+  | .elem sp name attrs ks' :: rest, hK, hkey, hadj, na, n, seq, pend, _, hlen => by
+      have hrel := hK sp name attrs ks' (List.mem_cons_self ..)
+      obtain ⟨hd1, hd2⟩ := Rel.seqDecorate cfg seq hrel
+      have ih := kids_claim cfg S skey rest
+        (fun a b c d hm => hK a b c d (List.mem_cons_of_mem _ hm))
+        (fun a b c d hm => hkey a b c d (List.mem_cons_of_mem _ hm))
+        (noAdjTextKids_tail hadj)
+        (addChild na (elemKey cfg S name) (seqDecorate cfg seq (Fold.value cfg S (.elem sp name attrs ks'))).1)
+        n (seqDecorate cfg seq (Fold.value cfg S (.elem sp name attrs ks'))).2 none (.inl rfl)
+        (by simp only [Conv.textRuns] at hlen
+            rw [textRuns_length cfg rest false true]; exact hlen)
+      simp only [addChild_ne_nil, Bool.not_false, Bool.true_or] at ih
+      simp only [Fold.kids', Conv.childVals, Conv.textRuns, addAll_cons]
+      rw [← hd2]
+      have hF : EqN
+          (addAll (addChild na (elemKey cfg S name)
+              (seqDecorate cfg seq (Fold.value cfg S (.elem sp name attrs ks'))).1)
+            (Conv.childVals cfg S (seqDecorate cfg seq (Fold.value cfg S (.elem sp name attrs ks'))).2 rest))
+          (addAll (addChild na (elemKey cfg S name)
+              (seqDecorate cfg seq (Conv.value cfg S (.elem sp name attrs ks'))).1)
+            (Conv.childVals cfg S (seqDecorate cfg seq (Fold.value cfg S (.elem sp name attrs ks'))).2 rest)) :=
+        EqN.addAll _ (EqN.addChild (EqN.refl _) _ hd1.equiv)
+      have hc := expect_congr cfg S skey n hF (Conv.textRuns cfg true rest)
+      exact ⟨ih.1.trans hc.1, ih.2.trans hc.2⟩
+  | .text s :: rest, hK, hkey, hadj, na, n, seq, pend, hp, hlen => by
+      have hpend : pend = none := by
+        rcases hp with h | h
+        · exact h
+        · exact absurd rfl (h s rest)
+      subst hpend
+      have hK' := fun a b c d hm => hK a b c d (List.mem_cons_of_mem (Node.text s) hm)
+      have hkey' := fun a b c d hm => hkey a b c d (List.mem_cons_of_mem (Node.text s) hm)
+      have hp' : ∀ raw, pendOK (some raw) rest := fun _ => .inr (noAdjTextKids_text hadj)
+      simp only [Fold.kids', Conv.childVals, Conv.textRuns, Option.getD_none, List.nil_append]
+      simp only [Conv.textRuns] at hlen
+      by_cases hb : (Conv.textOf cfg s).isEmpty = true
+      · -- blank run: nothing changes
+        have hon : onText cfg S skey na n s = (na, n) := by
+          have hb' : (escDecIf cfg (trimChars (trimSet cfg) s)).isEmpty = true := hb
+          unfold onText; simp only; rw [if_pos hb']
+        rw [if_pos hb] at hlen ⊢
+        rw [hon]
+        exact kids_claim cfg S skey rest hK' hkey' (noAdjTextKids_tail hadj) na n seq (some s)
+          (hp' s) hlen
+      · have hb' : ¬ (escDecIf cfg (trimChars (trimSet cfg) s)).isEmpty = true := hb
+        rw [if_neg hb] at hlen ⊢
+        simp only [List.length_cons] at hlen
+        have hnil : ∀ b, Conv.textRuns cfg b rest = [] :=
+          fun b => textRuns_eq_nil cfg rest false b (by omega)
+        by_cases hseen : (!na.isEmpty || cfg.asMap) = true
+        · have hon : onText cfg S skey na n s
+              = (insert cfg.textK (cast S cfg.cast (Conv.textOf cfg s) cfg.textK) na, n) := by
+            unfold onText; simp only; rw [if_neg hb', if_pos hseen]; rfl
+          rw [hon]
+          have ih := kids_claim cfg S skey rest hK' hkey' (noAdjTextKids_tail hadj)
+            (insert cfg.textK (cast S cfg.cast (Conv.textOf cfg s) cfg.textK) na) n seq (some s)
+            (hp' s) (by rw [hnil]; simp)
+          rw [hnil] at ih ⊢
+          simp only [expect, hseen, Bool.not_true, Bool.false_eq_true, if_false] at ih ⊢
+          refine ⟨ih.1, ih.2.trans (addAll_insert_comm _ _ _ _ ?_)⟩
+          intro c hc
+          obtain ⟨a, b, c', d, hm, he⟩ := childVals_key cfg S rest seq c hc
+          rw [he]; exact hkey' a b c' d hm
+        · have hon : onText cfg S skey na n s
+              = (na, some (cast S cfg.cast (Conv.textOf cfg s) skey)) := by
+            unfold onText; simp only; rw [if_neg hb', if_neg hseen]; rfl
+          rw [hon]
+          have ih := kids_claim cfg S skey rest hK' hkey' (noAdjTextKids_tail hadj)
+            na (some (cast S cfg.cast (Conv.textOf cfg s) skey)) seq (some s)
+            (hp' s) (by rw [hnil]; simp)
+          rw [hnil] at ih ⊢
+          have hseen' : (!na.isEmpty || cfg.asMap) = false := by
+            cases h : (!na.isEmpty || cfg.asMap) <;> simp_all
+          simp only [expect, hseen', Bool.not_false, if_true] at ih ⊢
+          exact ih
+  | .comment x :: rest, hK, hkey, hadj, na, n, seq, pend, _, hlen => by
+      simp only [Fold.kids', Conv.childVals, Conv.textRuns] at hlen ⊢
+      exact kids_claim cfg S skey rest
+        (fun a b c d hm => hK a b c d (List.mem_cons_of_mem _ hm))
+        (fun a b c d hm => hkey a b c d (List.mem_cons_of_mem _ hm))
+        (noAdjTextKids_tail hadj) na n seq none (.inl rfl) hlen
+  | .procinst x y :: rest, hK, hkey, hadj, na, n, seq, pend, _, hlen => by
+      simp only [Fold.kids', Conv.childVals, Conv.textRuns] at hlen ⊢
+      exact kids_claim cfg S skey rest
+        (fun a b c d hm => hK a b c d (List.mem_cons_of_mem _ hm))
+        (fun a b c d hm => hkey a b c d (List.mem_cons_of_mem _ hm))
+        (noAdjTextKids_tail hadj) na n seq none (.inl rfl) hlen
+  | .directive x :: rest, hK, hkey, hadj, na, n, seq, pend, _, hlen => by
+      simp only [Fold.kids', Conv.childVals, Conv.textRuns] at hlen ⊢
+      exact kids_claim cfg S skey rest
+        (fun a b c d hm => hK a b c d (List.mem_cons_of_mem _ hm))
+        (fun a b c d hm => hkey a b c d (List.mem_cons_of_mem _ hm))
+        (noAdjTextKids_tail hadj) na n seq none (.inl rfl) hlen
+
+
+/-! ### one element, then the whole tree -/
+
+theorem elem_rel (cfg : DecCfg) (S : Strconv) (sp name : Str) (attrs : List Attr) (ks : List Node)
+    (hK : ∀ sp name attrs ks', Node.elem sp name attrs ks' ∈ ks →
+      Rel (Fold.value cfg S (.elem sp name attrs ks')) (Conv.value cfg S (.elem sp name attrs ks')))
+    (hkey : ∀ sp name attrs ks', Node.elem sp name attrs ks' ∈ ks → elemKey cfg S name ≠ cfg.textK)
+    (hadj : noAdjTextKids ks = true) (hlen : (Conv.textRuns cfg false ks).length ≤ 1) :
+    Rel (Fold.value cfg S (.elem sp name attrs ks)) (Conv.value cfg S (.elem sp name attrs ks)) := by
+  obtain ⟨h1, h2⟩ := kids_claim cfg S (elemKey cfg S name) ks hK hkey hadj (loadAttrs cfg S attrs)
+    none 0 none (.inl rfl) hlen
+  have hnd := nodup_keys_kids' cfg S (elemKey cfg S name) ks (loadAttrs cfg S attrs) none 0 none
+    (nodup_keys_loadAttrs ..)
+  have hbase : EqN (addAll (loadAttrs cfg S attrs) (Conv.childVals cfg S 0 ks))
+      (Conv.groupOnto (loadAttrs cfg S attrs) (Conv.childVals cfg S 0 ks)) :=
+    EqN.of_lookup (fun q =>
+      (lookup_groupOnto_eq_addAll _ _ (childVals_not_list cfg S ks 0) q).symm)
+  have hbd := nodup_keys_groupOnto (loadAttrs cfg S attrs) (Conv.childVals cfg S 0 ks)
+    (nodup_keys_loadAttrs ..)
+  simp only [Fold.value, Conv.value]
+  generalize Fold.kids' cfg S (elemKey cfg S name) (loadAttrs cfg S attrs, none, 0, none) ks = st
+    at h1 h2 hnd ⊢
+  generalize Conv.groupOnto (loadAttrs cfg S attrs) (Conv.childVals cfg S 0 ks) = base at hbase hbd ⊢
+  generalize addAll (loadAttrs cfg S attrs) (Conv.childVals cfg S 0 ks) = F at h1 h2 hbase
+  cases hr : Conv.textRuns cfg (!(loadAttrs cfg S attrs).isEmpty || cfg.asMap) ks with
+  | nil =>
+    rw [hr] at h1 h2
+    simp only [expect] at h1 h2
+    simp only
+    have he := (h2.trans hbase).isEmpty
+    rw [h1]
+    unfold finishElem
+    simp only [he]
+    split
+    · exact Rel.scalar rfl
+    · exact Rel.map hnd hbd (h2.trans hbase)
+  | cons t ts =>
+    rw [hr] at h1 h2
+    simp only [expect] at h1 h2
+    simp only
+    by_cases hearly : t.early = true
+    · simp only [hearly, if_true] at h1 h2 ⊢
+      have he := (h2.trans hbase).isEmpty
+      rw [h1]
+      unfold finishElem
+      simp only [he]
+      split
+      · exact Rel.scalar (cast_scalar ..)
+      · exact Rel.map (nodup_keys_insert _ _ _ hnd) (nodup_keys_insert _ _ _ hbd)
+          (EqN.insert (h2.trans hbase) _ rfl)
+    · simp only [hearly] at h1 h2 ⊢
+      have h3 : EqN st.1 (insert cfg.textK (cast S cfg.cast t.value cfg.textK) base) :=
+        h2.trans (EqN.insert hbase _ rfl)
+      have he := h3.isEmpty
+      rw [insert_ne_nil] at he
+      rw [h1]
+      unfold finishElem
+      simp only [he]
+      exact Rel.map hnd (nodup_keys_insert _ _ _ hbd) h3
+
+theorem inDomain_elem {cfg : DecCfg} {S : Strconv} {sp name : Str} {attrs : List Attr}
+    {ks : List Node} (h : Conv.inDomain cfg S (.elem sp name attrs ks) = true) :
+    (Conv.textRuns cfg false ks).length ≤ 1 ∧ Conv.inDomainKids cfg S ks = true := by
+  simp only [Conv.inDomain, Bool.and_eq_true, decide_eq_true_eq] at h
+  exact ⟨h.1.1, h.2⟩
+
+theorem inDomainKids_cons_elem {cfg : DecCfg} {S : Strconv} {sp name : Str} {attrs : List Attr}
+    {ks rest : List Node} (h : Conv.inDomainKids cfg S (.elem sp name attrs ks :: rest) = true) :
+    elemKey cfg S name ≠ cfg.textK ∧ Conv.inDomain cfg S (.elem sp name attrs ks) = true
+      ∧ Conv.inDomainKids cfg S rest = true := by
+  simp only [Conv.inDomainKids, Bool.and_eq_true, decide_eq_true_eq] at h
+  exact ⟨h.1.1.1, h.1.2, h.2⟩
+
+theorem inDomainKids_tail {cfg : DecCfg} {S : Strconv} {k : Node}
+    {rest : List Node} (h : Conv.inDomainKids cfg S (k :: rest) = true) :
+    Conv.inDomainKids cfg S rest = true := by
+  cases k with
+  | elem _ _ _ _ => exact (inDomainKids_cons_elem h).2.2
+  | text _ => simpa only [Conv.inDomainKids] using h
+  | comment _ => simpa only [Conv.inDomainKids] using h
+  | procinst _ _ => simpa only [Conv.inDomainKids] using h
+  | directive _ => simpa only [Conv.inDomainKids] using h
+
+theorem inDomainKids_key (cfg : DecCfg) (S : Strconv) : ∀ (ks : List Node),
+    Conv.inDomainKids cfg S ks = true →
+    ∀ sp name attrs ks', Node.elem sp name attrs ks' ∈ ks → elemKey cfg S name ≠ cfg.textK
+  | [], _, _, _, _, _, hm => by simp at hm
+  | k :: rest, h, sp, name, attrs, ks', hm => by
+      rcases List.mem_cons.1 hm with e | hm
+      · subst e
+        exact (inDomainKids_cons_elem h).1
+      · exact inDomainKids_key cfg S rest (inDomainKids_tail h) sp name attrs ks' hm
+
+mutual
+theorem rel_node (cfg : DecCfg) (S : Strconv) : ∀ (t : Node),
+    Conv.inDomain cfg S t = true → noAdjText t = true →
+    match t with
+    | .elem .. => Rel (Fold.value cfg S t) (Conv.value cfg S t)
+    | _ => True
+  | .elem sp name attrs ks, hd, hn => by
+      have hd' := inDomain_elem hd
+      have hn' : noAdjTextKids ks = true := by simpa only [noAdjText] using hn
+      exact elem_rel cfg S sp name attrs ks (rel_kids cfg S ks hd'.2 hn')
+        (inDomainKids_key cfg S ks hd'.2) hn' hd'.1
+  | .text _, _, _ => trivial
+  | .comment _, _, _ => trivial
+  | .procinst _ _, _, _ => trivial
+  | .directive _, _, _ => trivial
+theorem rel_kids (cfg : DecCfg) (S : Strconv) : ∀ (ks : List Node),
+    Conv.inDomainKids cfg S ks = true → noAdjTextKids ks = true →
+    ∀ sp name attrs ks', Node.elem sp name attrs ks' ∈ ks →
+      Rel (Fold.value cfg S (.elem sp name attrs ks')) (Conv.value cfg S (.elem sp name attrs ks'))
+  | [], _, _, _, _, _, _, hm => by simp at hm
+  | k :: rest, hd, hn, sp, name, attrs, ks', hm => by
+      rcases List.mem_cons.1 hm with e | hm
+      · subst e
+        exact rel_node cfg S (.elem sp name attrs ks') (inDomainKids_cons_elem hd).2.1
+          (noAdjTextKids_head hn)
+      · exact rel_kids cfg S rest (inDomainKids_tail hd) (noAdjTextKids_tail hn) sp name attrs ks' hm
+end
+
+/-- the imperative fold is the convention, up to the order of map entries -/
+theorem fold_equiv_conv (cfg : DecCfg) (S : Strconv) (t : Node)
+    (hd : Conv.inDomain cfg S t = true) (hn : noAdjText t = true) :
+    Fold.value cfg S t ≈ᵥ Conv.value cfg S t := by
+  cases t with
+  | elem sp name attrs ks => exact (rel_node cfg S (.elem sp name attrs ks) hd hn).equiv
+  | text _ => simp [Fold.value, Conv.value, Val.equiv]
+  | comment _ => simp [Fold.value, Conv.value, Val.equiv]
+  | procinst _ _ => simp [Fold.value, Conv.value, Val.equiv]
+  | directive _ => simp [Fold.value, Conv.value, Val.equiv]
+
+theorem doc_equiv (cfg : DecCfg) (S : Strconv) (t : Node)
+    (h : Fold.value cfg S t ≈ᵥ Conv.value cfg S t) : Fold.doc cfg S t ≈ᵥ Conv.doc cfg S t := by
+  cases t with
+  | elem sp name attrs ks =>
+    unfold Val.equiv at h ⊢
+    simp only [Fold.doc, Conv.doc, Val.norm, Val.normEntries, h]
+  | text _ => rfl
+  | comment _ => rfl
+  | procinst _ _ => rfl
+  | directive _ => rfl
+
+
+/-! ### facts behind the option corollaries -/
+
+theorem conv_value_shape (cfg : DecCfg) (S : Strconv) (sp name : Str) (attrs : List Attr)
+    (ks : List Node) :
+    scalar (Conv.value cfg S (.elem sp name attrs ks)) = true
+      ∨ (Conv.value cfg S (.elem sp name attrs ks)).isMap = true := by
+  simp only [Conv.value]
+  split
+  · split
+    · exact .inl rfl
+    · exact .inr rfl
+  · split
+    · split
+      · exact .inl (cast_scalar _ _ _ _)
+      · exact .inr rfl
+    · exact .inr rfl
+
+/-- numbering: a scalar or map value becomes a map carrying `_seq`, and the counter advances -/
+theorem seqDecorate_spec (cfg : DecCfg) (seq : Nat) (v : Val) (hs : cfg.seqNum = true)
+    (hv : scalar v = true ∨ v.isMap = true) :
+    ∃ kvs, (seqDecorate cfg seq v).1 = .map kvs
+      ∧ lookup "_seq".toList kvs = some (.num ("i:".toList ++ natToStr seq))
+      ∧ (seqDecorate cfg seq v).2 = seq + 1 := by
+  unfold seqDecorate
+  rw [hs]
+  cases v with
+  | null => simp [scalar, Val.isMap] at hv
+  | list _ => simp [scalar, Val.isMap] at hv
+  | map kvs => exact ⟨_, rfl, by rw [lookup_insert]; simp, rfl⟩
+  | str _ => exact ⟨_, rfl, by rw [lookup_insert]; simp, rfl⟩
+  | num _ => exact ⟨_, rfl, by rw [lookup_insert]; simp, rfl⟩
+  | bool _ => exact ⟨_, rfl, by rw [lookup_insert]; simp, rfl⟩
+
+/-- under numbering the `i`-th element child carries `_seq = seq + i` -/
+theorem childVals_seq_index (cfg : DecCfg) (S : Strconv) (hs : cfg.seqNum = true) :
+    ∀ (ks : List Node) (seq i : Nat) (c : Str × Val),
+      (Conv.childVals cfg S seq ks)[i]? = some c →
+      ∃ kvs, c.2 = .map kvs
+        ∧ lookup "_seq".toList kvs = some (.num ("i:".toList ++ natToStr (seq + i)))
+  | [], seq, i, c, h => by simp [Conv.childVals] at h
+  | .elem sp name attrs ks' :: rest, seq, i, c, h => by
+      obtain ⟨kvs, h1, h2, h3⟩ := seqDecorate_spec cfg seq _ hs (conv_value_shape cfg S sp name attrs ks')
+      simp only [Conv.childVals] at h
+      cases i with
+      | zero =>
+        simp only [List.getElem?_cons_zero, Option.some.injEq] at h
+        subst h
+        exact ⟨kvs, h1, h2⟩
+      | succ j =>
+        simp only [List.getElem?_cons_succ] at h
+        rw [h3] at h
+        obtain ⟨kvs', h1', h2'⟩ := childVals_seq_index cfg S hs rest (seq + 1) j c h
+        refine ⟨kvs', h1', ?_⟩
+        rw [h2']
+        have : seq + 1 + j = seq + (j + 1) := by omega
+        rw [this]
+  | .text _ :: rest, seq, i, c, h => by
+      simp only [Conv.childVals] at h; exact childVals_seq_index cfg S hs rest seq i c h
+  | .comment _ :: rest, seq, i, c, h => by
+      simp only [Conv.childVals] at h; exact childVals_seq_index cfg S hs rest seq i c h
+  | .procinst _ _ :: rest, seq, i, c, h => by
+      simp only [Conv.childVals] at h; exact childVals_seq_index cfg S hs rest seq i c h
+  | .directive _ :: rest, seq, i, c, h => by
+      simp only [Conv.childVals] at h; exact childVals_seq_index cfg S hs rest seq i c h
+
+/-- the local names of the element children, in document order -/
+def elemNames : List Node → List Str
+  | [] => []
+  | .elem _ name _ _ :: rest => name :: elemNames rest
+  | _ :: rest => elemNames rest
+
+theorem childVals_keys (cfg : DecCfg) (S : Strconv) : ∀ (ks : List Node) (seq : Nat),
+    keys (Conv.childVals cfg S seq ks) = (elemNames ks).map (elemKey cfg S)
+  | [], seq => by simp [Conv.childVals, keys, elemNames]
+  | .elem sp name attrs ks' :: rest, seq => by
+      have ih := childVals_keys cfg S rest (seqDecorate cfg seq (Conv.value cfg S (.elem sp name attrs ks'))).2
+      simp only [keys] at ih
+      simp only [Conv.childVals, keys, elemNames, List.map_cons, ih]
+  | .text _ :: rest, seq => by
+      simp only [Conv.childVals, elemNames]; exact childVals_keys cfg S rest seq
+  | .comment _ :: rest, seq => by
+      simp only [Conv.childVals, elemNames]; exact childVals_keys cfg S rest seq
+  | .procinst _ _ :: rest, seq => by
+      simp only [Conv.childVals, elemNames]; exact childVals_keys cfg S rest seq
+  | .directive _ :: rest, seq => by
+      simp only [Conv.childVals, elemNames]; exact childVals_keys cfg S rest seq
+
+theorem mem_keys_loadAttrs (cfg : DecCfg) (S : Strconv) (attrs : List Attr) (k : Str) :
+    k ∈ keys (loadAttrs cfg S attrs) ↔ ∃ a ∈ attrs, k = attrKey cfg S a.name := by
+  unfold loadAttrs
+  have : ∀ (as : List Attr) (na : Entries),
+      k ∈ keys (as.foldl (fun na a =>
+        let key := attrKey cfg S a.name
+        insert key (cast S cfg.cast (escDecIf cfg a.value) key) na) na)
+      ↔ k ∈ keys na ∨ ∃ a ∈ as, k = attrKey cfg S a.name := by
+    intro as
+    induction as with
+    | nil => intro na; simp
+    | cons a as ih =>
+      intro na
+      rw [List.foldl_cons, ih, mem_keys_insert]
+      simp only [List.mem_cons, exists_eq_or_imp]
+      constructor
+      · rintro ((h | h) | h)
+        · exact .inr (.inl h)
+        · exact .inl h
+        · exact .inr (.inr h)
+      · rintro (h | h | h)
+        · exact .inl (.inr h)
+        · exact .inl (.inl h)
+        · exact .inr h
+  rw [this]
+  simp [keys]
+
+theorem dropWhile_eq_self {α : Type} (p : α → Bool) : ∀ (l : List α), (∀ x ∈ l, p x = false) →
+    l.dropWhile p = l
+  | [], _ => rfl
+  | x :: xs, h => by simp [List.dropWhile, h x (List.mem_cons_self ..)]
+
+/-- `strings.Trim` leaves a string without cut-set characters alone -/
+theorem trimChars_eq_self (cut : List Char) (s : Str) (h : ∀ c ∈ s, cut.contains c = false) :
+    trimChars cut s = s := by
+  unfold trimChars
+  rw [dropWhile_eq_self _ s h, dropWhile_eq_self _ s.reverse (fun c hc => h c (List.mem_reverse.1 hc)),
+    List.reverse_reverse]
+
+/-! ### fixtures for the non-vacuity examples of Props/C01 -/
+
+/-- a `Strconv` that parses nothing (every `cast` yields a string) -/
+def S0 : Strconv :=
+  { parseInt := fun _ => none, parseUint := fun _ => none, parseFloat := fun _ => none, lower := id }
+
+/-- `<r id="1"><a x="1">t1</a>␤<b><c>deep</c></b><!--note--><a/> hello </r>`: depth 3, siblings
+    a, b, a, attributes, one text run -/
+def sampleTree : Node :=
+  .elem [] "r".toList [⟨[], "id".toList, "1".toList⟩]
+    [ .elem [] "a".toList [⟨[], "x".toList, "1".toList⟩] [.text "t1".toList],
+      .text "\n  ".toList,
+      .elem [] "b".toList [] [.elem [] "c".toList [] [.text "deep".toList]],
+      .comment "note".toList,
+      .elem [] "a".toList [] [],
+      .text " hello ".toList ]
+
+/-- the same with the text run before the children: the fold stores the text key first -/
+def sampleTreeTextFirst : Node :=
+  .elem [] "r".toList [⟨[], "id".toList, "1".toList⟩]
+    [ .text " hello ".toList,
+      .elem [] "a".toList [] [],
+      .elem [] "b".toList [] [.elem [] "c".toList [] [.text "deep".toList]],
+      .elem [] "a".toList [⟨[], "x".toList, "1".toList⟩] [.text "t1".toList] ]
+
 end Dec
 end Mxj
